@@ -36,7 +36,7 @@ ASSUMPTIONS = [
     "underlying iterators without aclose get a neutral context by design: only the item differential is judged for them",
     "closing = aclose awaited exactly once (class-based) / generator frame gone (async generator)",
 ]
-PROBES = ("cancel_at_block_level_before_first_pull", "nested_scope", "inner_exception_caught_outer_continues", "exit_by_exception", "exit_by_cancel", "cancel_inside_tool", "tool_abandoned",
+PROBES = ("source_is_a_borrowed_handle", "cancel_at_block_level_before_first_pull", "nested_scope", "inner_exception_caught_outer_continues", "exit_by_exception", "exit_by_cancel", "cancel_inside_tool", "tool_abandoned",
           "inner_scope_left_then_outer_used", "underlying_without_aclose", "tool_closed_midway")
 
 TOOL_NAMES = ("zip", "map", "filter", "filterfalse", "enumerate", "accumulate", "batched", "chain", "compress",
@@ -78,6 +78,9 @@ def prepare(ch):
     g = Gen(ch, cfg, "")
     items = g.items(ch.draw(9), falsy=True)
     prep.src = g.src(items, ("agen", "aiter_cls", "aiterable", "aiter_noclose", "agen", "aiter_full", "sync_iter", "list"))
+    # the iterable handed to scoped_iter may itself be a borrowed handle: the scope must end *that* handle at exit
+    # (and, being only borrowed, what is underneath stays open)
+    prep.borrowed = prep.src.flavour in ("agen", "aiter_cls", "aiter_full") and ch.chance(1, 6)
     ops = []
     depth = 1
     for _ in range(ch.between(1, 6)):
@@ -105,6 +108,11 @@ def prepare(ch):
                 spec.srcs = [gt.src([])]
             if name == "batched" and spec.p["n"] < 1:
                 spec.p["n"] = 1
+            if name == "chain" and spec.p["form"] == 2:
+                spec.p["form"] = 1  # the lazy outer source is built per world by the shared builder, not here
+                spec.srcs.pop()
+            if spec.p.get("alias"):
+                spec.p["alias"] = None
             ops.append(("tool", spec, ch.draw(5), ch.draw(3)))
         elif kind == 1:
             ops.append(("pull", ch.between(1, 2)))
@@ -152,8 +160,9 @@ def run_block(prep, st, mode, pos, interrupts):
     world = World(sim)
     L = lib()
     src = make_async_source(world, prep.src)
+    given = L.borrow(src.obj) if prep.borrowed else src.obj
     res = {"apps": [], "problems": [], "exit": None, "handles_after": None, "left": [], "inside_closed": False,
-           "reached": False}
+           "reached": False, "given_after": None}
 
     async def settle():
         gc.collect()
@@ -171,7 +180,7 @@ def run_block(prep, st, mode, pos, interrupts):
         handles = []
         left = []
         try:
-            async with L.scoped_iter(src.obj) as h1:
+            async with L.scoped_iter(given) as h1:
                 handles.append(h1)
                 await run_ops(prep.ops, 0, handles, left)
                 res["exit"] = "fallthrough"
@@ -183,6 +192,8 @@ def run_block(prep, st, mode, pos, interrupts):
             raise
         sim.cancel_plan.clear()  # crash points are inside the block only
         res["handles_after"] = await probe_handles(handles + left)
+        if prep.borrowed:
+            res["given_after"] = await probe_dead(given)
 
     async def probe_handles(hs):
         if prep.src.flavour == "aiter_noclose":
@@ -265,6 +276,9 @@ def run_block(prep, st, mode, pos, interrupts):
                                     break
                                 app["items"].append(ident(item))
                                 del item
+                                if len(app["items"]) > 3000:
+                                    app["end"] = "runaway"
+                                    break
                             if app["end"] is None:
                                 app["end"] = "exhausted"
                         else:
@@ -440,7 +454,8 @@ def run_prepared(prep, st, ctx):
     sig = (modename, fl)
 
     def describe():
-        return {"underlying": prep.src.describe(), "ops": describe_ops(prep.ops), "exit_point": [modename, pos],
+        return {"underlying": prep.src.describe(), "given_as_borrowed_handle": prep.borrowed,
+                "given_after": res["given_after"], "ops": describe_ops(prep.ops), "exit_point": [modename, pos],
                 "applications": [dict(a) for a in res["apps"]], "exit": res["exit"],
                 "handles_after": res["handles_after"], "aclose_count": src.n_aclose, "finalised": src.finalised,
                 "cancel_fired_at": sim.cancel_fired_at}
@@ -474,10 +489,17 @@ def run_prepared(prep, st, ctx):
                 out.violate("C08.underlying_closed_inside_block", sig, describe())
             if any(x != "stop" for x in (res["handles_after"] or [])):
                 out.violate("C08.handle_yields_after_exit", sig, describe())
-            if fl in ("aiter_cls", "aiterable", "aiter_full"):
+            if prep.borrowed:
+                # scoped_iter(borrow(x)): the borrowed handle is what the scope owns and ends; x itself is only borrowed
+                if res["given_after"] not in (None, "stop") and mode != 2:
+                    out.violate("C08.borrowed_source_not_ended_at_exit", sig, describe())
+                closed_under = src.n_aclose > 0 or (fl == "agen" and src.finalised and not src.exhausted and not src.killed)
+                if closed_under:
+                    out.violate("C08.closed_through_a_borrowed_handle", sig, describe())
+            elif fl in ("aiter_cls", "aiterable", "aiter_full"):
                 if src.n_aclose != 1:
                     out.violate("C08.underlying_not_closed_exactly_once", sig + ("count=%d" % src.n_aclose,), describe())
-            elif fl == "agen":
+            elif fl == "agen" and not prep.borrowed:
                 if src.agen.ag_frame is not None:
                     out.violate("C08.underlying_not_closed_exactly_once", sig + ("count=0",), describe())
     ntools = sum(1 for o in prep.ops if o[0] == "tool")
@@ -488,6 +510,8 @@ def run_prepared(prep, st, ctx):
         out.probes["inner_scope_left_then_outer_used"] = 1
     if fl == "aiter_noclose":
         out.probes["underlying_without_aclose"] = 1
+    if prep.borrowed:
+        out.probes["source_is_a_borrowed_handle"] = 1
     if res.get("caught") and res["left"] and any(a["op"] >= res["left"][0] for a in res["apps"]):
         out.probes["inner_exception_caught_outer_continues"] = 1
     if any(a["end"] == "abandoned" for a in res["apps"]):
@@ -512,7 +536,7 @@ def run_prepared(prep, st, ctx):
                 out.probes["cancel_at_block_level_before_first_pull"] = 1
     out.fault_free = mode == 0
     out.nontrivial = (ntools >= 2 or nested) and reached
-    out.shape = (fl, len(prep.src.items), tuple((o[0], o[1].shape_key(), o[2], o[3]) if o[0] == "tool" else o
+    out.shape = (fl, prep.borrowed, len(prep.src.items), tuple((o[0], o[1].shape_key(), o[2], o[3]) if o[0] == "tool" else o
                                                 for o in prep.ops), modename, pos)
     if ctx.want_sample:
         out.sample = describe()
